@@ -180,6 +180,11 @@ def run_case(c):
 
 def main():
     payload = json.loads(sys.stdin.read())
+    if payload.get("prelude", True):
+        import os as _os
+        sys.path.insert(0, _os.path.dirname(_os.path.abspath(__file__)))
+        from prelude import run_prelude
+        run_prelude()
     out = []
     for c in payload["cases"]:
         try:
